@@ -9,6 +9,7 @@ THEOREMS = ["C17_stepR_erase", "C17_error_ref_is_fetched_command", "C17_missing_
             "C17_parse_error_column", "C17_parse_error_column_bounds", "C17_line_error_position", "C17_file_error_position",
             "C17_missing_parameter_column", "C17_illegal_duration_column",
             "C17_converter_error_ref", "C17_writer_error_ref", "C17_converter_error_on_track",
+            "C17_hook_item_is_fetched", "C17_hook_error_event",
             "C17_what_layout", "C17_what_reads_back", "C17_pipeline_parse_error"]
 LEVEL = "proof"
 STREAM = "diag.what"
@@ -738,9 +739,12 @@ LEVEL_TEXT = ("Machine-checked theorems over Lean models of the reader (input.cp
               "note range, wrong instrument type: the faulty command; anything thrown inside a JUMP's hook: the calling JUMP) or comes unchanged out of the "
               "writer of a drum routine; hence it is no position or a command of a track of the song. what(): the text is file:line+1:col+1: msg cut at 199 "
               "characters, the prefix is whole whenever it fits (file names up to 175 characters with ten-digit numbers), and the judge's reader gives file, "
-              "line and column back. Decided per case by the fault-injection oracle only: which converter error is raised for which command (the "
-              "'faulty command itself on a channel track' clause needs the hook's case analysis per message), the clause 'on a track that calls it' "
-              "in terms of the token map, and agreement of the models with the C++. Three defects were found and repaired (51fb87b: reference stayed in "
+              "line and column back. The event handed to event_hook is the fetched one (a final-pass LOOP_BREAK aside) and event_hook only fails for six "
+              "event types, for INS / '%' / pitch envelope / plain NOTE with the error about that very event: so a missing or wrong instrument, an undefined "
+              "platform command, a missing pitch envelope and a note out of range raised by a writer step carry the position of that command. Decided "
+              "per case by the fault-injection oracle only: that conversion actually reaches the faulty command (completeness: 'it is the faulty command "
+              "itself when that command is on a channel track'), the clause 'on a track that calls it' in terms of the generator's token map, and "
+              "agreement of the models with the C++. Three defects were found and repaired (51fb87b: reference stayed in "
               "the subroutine after a return; 1763cac: '%n' events carried a stale or no reference; 7b882fe: an unterminated key signature let the read "
               "position run two past the end of the line, so a later diagnostic named a column three past it).")
 LEVEL_NOTE = ("Trusted: Lean kernel (propext, Classical.choice, Quot.sound at most), the hand-written models Model/Lexer, Model/Mml (Model/MmlFix is now a "
